@@ -401,7 +401,11 @@ def wicks(expr, rules: Rules = None, simplify_kronecker_deltas: bool = False):
             result = _contract_operator_string(op_string)
             result = (Mul(*c_part) * result).expand()
             if simplify_kronecker_deltas:
-                result = evaluate_deltas(result)
+                # indices that occur only once in the input are target
+                # indices: they must not be removed, even if a contraction
+                # places them on more than one of the generated deltas
+                target_idx = Expr(expr).terms[0].target
+                result = evaluate_deltas(result, target_idx)
     else:  # neither add, Mul, NO or Operator -> maybe a number or a tensor
         return expr
 
